@@ -48,7 +48,7 @@ pub fn on_death(c: &Case, d: &ChildDeath, allowed: &features::Allowed) -> Outcom
     let enc = ALL_ENC[ei.min(3)];
     let val = c.vals.get(vi).unwrap_or(&c.vals[0]);
     let feats = features::scan(&c.ty, val, enc);
-    let sh = features::blame(&feats, allowed).map(|f| f.name().to_string()).unwrap_or_else(|| generic_shape(&c.ty));
+    let shape = features::blame(&feats, allowed).map(|f| f.name().to_string());
     let what = format!(
         "evaluator process died ({}) while decoding dust-dds's own output ({}): signal 6 = abort on a failed giant allocation, signal 27 (SIGPROF) = per-case CPU allowance exceeded; type {}; value {}",
         d.exit,
@@ -57,7 +57,7 @@ pub fn on_death(c: &Case, d: &ChildDeath, allowed: &features::Allowed) -> Outcom
         short(val)
     );
     let mut o = Outcome { classes: type_classes(&c.ty), evaluations: 1, nontrivial: nontrivial_type(&c.ty), ..Default::default() };
-    o.fail(format!("C09:roundtrip:{}:{sh}", enc.vname()), what);
+    o.fail(roundtrip_sig(&shape, enc, &c.ty), what);
     o
 }
 
@@ -105,7 +105,7 @@ pub fn eval_case(c: &Case, allowed: &features::Allowed, fd: i32) -> Outcome {
                 Caught::Panic(in_dust, s) => {
                     if in_dust {
                         let sig = match &shape {
-                            Some(sh) => format!("C09:roundtrip:{}:{sh}", enc.vname()),
+                            Some(sh) => format!("C09:roundtrip:{sh}"),
                             None => format!("C09:panic:{s}"),
                         };
                         set(&mut verdict, sig, format!("serialize ({}) of a valid value panicked: {s}; type {}", enc.name(), describe(&c.ty)));
@@ -131,7 +131,7 @@ pub fn eval_case(c: &Case, allowed: &features::Allowed, fd: i32) -> Outcome {
                     if in_dust {
                         // a panic while decoding a stream that a known finding mis-frames belongs to that finding
                         let sig = match &shape {
-                            Some(sh) => format!("C09:roundtrip:{}:{sh}", enc.vname()),
+                            Some(sh) => format!("C09:roundtrip:{sh}"),
                             None => format!("C09:panic:{s}"),
                         };
                         set(&mut verdict, sig, format!("deserialize ({}) of dust-dds's own output panicked: {s}; type {}; bytes {}", enc.name(), describe(&c.ty), hex(&bytes)));
@@ -140,28 +140,25 @@ pub fn eval_case(c: &Case, allowed: &features::Allowed, fd: i32) -> Outcome {
                     }
                 }
                 Caught::Ok(Err(e)) => {
-                    let sh = shape.clone().unwrap_or_else(|| generic_shape(&c.ty));
                     set(
                         &mut verdict,
-                        format!("C09:roundtrip:{}:{sh}", enc.vname()),
+                        roundtrip_sig(&shape, enc, &c.ty),
                         format!("deserialize(serialize(v)) failed with {e} ({}); type {}; value {}; bytes {}", enc.name(), describe(&c.ty), short(val), hex(&bytes)),
                     );
                 }
                 Caught::Ok(Ok(d2)) => match read_data(&c.ty, &d2) {
                     Err(e) => {
-                        let sh = shape.clone().unwrap_or_else(|| generic_shape(&c.ty));
                         set(
                             &mut verdict,
-                            format!("C09:roundtrip:{}:{sh}", enc.vname()),
+                            roundtrip_sig(&shape, enc, &c.ty),
                             format!("deserialized data is malformed ({e}) ({}); type {}; value {}; bytes {}", enc.name(), describe(&c.ty), short(val), hex(&bytes)),
                         );
                     }
                     Ok(back) => {
                         if let Some(path) = diff(&c.ty, val, &back) {
-                            let sh = shape.clone().unwrap_or_else(|| generic_shape(&c.ty));
                             set(
                                 &mut verdict,
-                                format!("C09:roundtrip:{}:{sh}", enc.vname()),
+                                roundtrip_sig(&shape, enc, &c.ty),
                                 format!(
                                     "deserialize(serialize(v)) != v at {path} ({}); type {}; value {}; bytes {}",
                                     enc.name(),
@@ -204,6 +201,14 @@ pub fn eval_case(c: &Case, allowed: &features::Allowed, fd: i32) -> Outcome {
         }
     }
     Outcome { verdicts: verdict, classes, evaluations: evals, nontrivial: nontrivial_type(&c.ty) }
+}
+
+/// attributed failures are named after the root cause's trigger; others after encoding and shape
+fn roundtrip_sig(shape: &Option<String>, enc: rxcdr::Enc, ty: &Ty) -> String {
+    match shape {
+        Some(f) => format!("C09:roundtrip:{f}"),
+        None => format!("C09:roundtrip:{}:{}", enc.vname(), generic_shape(ty)),
+    }
 }
 
 pub fn describe(ty: &Ty) -> String {
